@@ -53,7 +53,7 @@ def main():
         else:
             tail, failed = run_tests(tree)
             res['tests'] = tail
-            res['tests_baseline_ok'] = (failed == ['test/test_groups.py::TestGroups::test_group_transform'])
+            res['tests_baseline_ok'] = set(failed) <= {'test/test_groups.py::TestGroups::test_group_transform'}
             rc1, out1 = run_equiv(tree, equiv)
             res['equiv_exit'] = [rc0, rc1]
             res['equiv_same_output'] = (out0 == out1)
